@@ -30,7 +30,7 @@ for sid in ids:
         c = subprocess.run([os.path.join(V, "tools/confirm_seed.sh"), sd], capture_output=True, text=True, errors="replace")
         confirm = (c.stdout.strip().splitlines() or ["CONFIRM ?"])[-1]
     ok = "suite=ok demo_with=fails demo_without=passes" in confirm
-    t = subprocess.run([os.path.join(V, "tools/try_seed.sh"), os.path.join(sd, "patch.diff")], capture_output=True, text=True, errors="replace")
+    t = subprocess.run([os.path.join(V, "tools/try_seed.sh"), os.path.join(sd, "patch.diff")] + os.environ.get("SEED_PROPS", "").split(), capture_output=True, text=True, errors="replace")
     out = t.stdout
     fired = re.findall(r"^FIRED: (.*)$", out, re.M)
     fired = fired[-1].split() if fired and fired[-1] != "none" else []
@@ -55,6 +55,8 @@ for sid in ids:
         "what_i_ran": ["tools/confirm_seed.sh seeded/%s  (scratch worktree /tmp/wt_confirm: suite with patch, demo with patch, demo without patch)" % sid,
                        "tools/try_seed.sh seeded/%s/patch.diff  (git -C /repo apply; every ./check <ID> --tier quick; git -C /repo checkout -- .)" % sid],
         "fired": fired,
+        "checks_run": os.environ.get("SEED_PROPS", "").split() or "all twenty",
+        **({"round": int(os.environ["SEED_ROUND"])} if os.environ.get("SEED_ROUND") else {}),
         "inconclusive": incon,
         "detected_by_own_property": sid.split("-")[0] in fired,
         "first_violation_lines": details,
